@@ -124,7 +124,7 @@ class Exec:
         self.uni = uni; self.scope = dict(scope or {}); self.obls = []; self.name = name
         self.prune = prune; self.call_model = call_model or {}; self._solver = None; self.npaths = 0
         self.inline_repo_funcs = inline_repo_funcs; self.assumptions = set(); self.dropped = set()
-        self._axioms = None; self.nprune = 0; self.raised = []; self.fstr_eval_calls = False; self.on_yield = None; self.yield_resume = None; self.loop_contracts = {}; self.loop_index = {}; self.fields_mode = False; self.method_names = {'values', 'items', 'keys', 'get'}; self.ghost_unhashable = False; self.quantify_allany = False; self.bitor_is_dict_union = False
+        self._axioms = None; self.nprune = 0; self.raised = []; self.fstr_eval_calls = False; self.on_yield = None; self.yield_resume = None; self.loop_contracts = {}; self.loop_index = {}; self.fields_mode = False; self.method_names = {'values', 'items', 'keys', 'get'}; self.ghost_unhashable = False; self.quantify_allany = False; self.bitor_is_dict_union = False; self.local_lists = set(); self.subscript_hook = None
     # ------------------------------------------------------------ helpers
     def obl(self, st, kind, goal, where=''):
         self.obls.append(Obl(f'{self.name}.{kind}.{len(self.obls)}', kind, st.pc, goal, where))
@@ -364,6 +364,9 @@ class Exec:
             outs += self.subscript(s, b, i, ast.unparse(n)[:80])
         return outs
     def subscript(self, s, b, i, where=''):
+        if self.subscript_hook is not None:
+            r = self.subscript_hook(self, s, b, i, where)
+            if r is not None: return r
         if isinstance(b, VDictRef):
             if not (isinstance(i, VPy) and isinstance(i.o, str)): raise Unsupported('non-constant key into a local dict: ' + where)
             cur = dict(s.hget(('dict', b.rid), ()))
@@ -753,6 +756,14 @@ class Exec:
         return self.b_linear(s, args, kw, where)
     def b_min(self, s, args, kw, where): return self.b_minmax(s, args, kw, where, True)
     def b_max(self, s, args, kw, where): return self.b_minmax(s, args, kw, where, False)
+    def b_collect(self, s, args, kw, where):
+        """set()/tuple()/list()/frozenset() of a symbolic collection: a new collection with exactly the same members (order / multiplicity abstract)"""
+        a = args[0] if args else None
+        if self.local_lists and isinstance(a, VObj) and len(args) == 1 and not kw:
+            R = M.fresh('collected'); k = M.fresh('kc')
+            s = s._r(cost=s.cost + M.len_(a.t), effects=s.effects + (('iterate_all', a.t, where),))
+            return [(s.assume(z3.ForAll([k], M.mem(R, k) == M.mem(a.t, k))), VObj(R))]
+        return self.b_linear(s, args, kw, where)
     def b_linear(self, s, args, kw, where):
         """all()/any()/tuple()/list()/sorted()/... over a symbolic container: an operation whose cost is the container's length"""
         a = args[0] if args else None
@@ -770,8 +781,8 @@ class Exec:
         raise Unsupported('linear builtin over ' + type(src).__name__ + ': ' + where)
     BUILTINS = {'enumerate': b_enumerate, 'id': b_id, 'super': b_super, 'dict': b_dict, 'hash': b_hash, 'isinstance': b_isinstance, 'issubclass': b_issubclass, 'len': b_len, 'iter': b_iter, 'next': b_next,
                 'getattr': b_getattr, 'bool': b_bool, 'type': b_type, 'callable': b_callable,
-                'all': b_all, 'any': b_any, 'zip': b_zip, 'tuple': b_linear, 'list': b_linear, 'set': b_linear, 'sorted': b_linear,
-                'sum': b_linear, 'min': b_min, 'max': b_max, 'frozenset': b_linear}
+                'all': b_all, 'any': b_any, 'zip': b_zip, 'tuple': b_collect, 'list': b_collect, 'set': b_collect, 'sorted': b_linear,
+                'sum': b_linear, 'min': b_min, 'max': b_max, 'frozenset': b_collect}
 
     # ------------------------------------------------------------ statements
     def exec_block(self, stmts, st):
@@ -796,6 +807,16 @@ class Exec:
         return outs + [('raise', s.with_env(st.env), v) for s, v in new]
     def s_Expr(self, n, st):
         if isinstance(n.value, ast.Constant): return [('next', st, None)]   # docstring
+        c = n.value
+        if (isinstance(c, ast.Call) and isinstance(c.func, ast.Attribute) and c.func.attr == 'append' and isinstance(c.func.value, ast.Name) and c.func.value.id in self.local_lists
+                and len(c.args) == 1 and not c.keywords and isinstance(st.get(c.func.value.id), VObj)):
+            # a LOCAL, unaliased list (named by the sidecar): append rebinds the name to the extended sequence
+            outs = []
+            for s, v in self.eval(c.args[0], st):
+                L = s.get(c.func.value.id).t; L2 = M.fresh('list_app'); j = M.fresh('ja', z3.IntSort()); n0 = M.len_(L)
+                s = s.assume(z3.And(M.inst(L2, self.uni.const(list)), M.len_(L2) == n0 + 1, M.item(L2, n0) == self.obj(v), z3.ForAll([j], z3.Implies(z3.And(0 <= j, j < n0), M.item(L2, j) == M.item(L, j)))))
+                outs.append(('next', s.set(c.func.value.id, VObj(L2)), None))
+            return outs
         return [('next', s, None) for s, _ in self.eval(n.value, st)]
     def s_Pass(self, n, st): return [('next', st, None)]
     def s_Break(self, n, st): return [('break', st, None)]
@@ -856,6 +877,9 @@ class Exec:
         return outs
     def s_Assign(self, n, st):
         outs = []
+        if isinstance(n.value, ast.List) and not n.value.elts and len(n.targets) == 1 and isinstance(n.targets[0], ast.Name) and n.targets[0].id in self.local_lists:
+            L = M.fresh('list_new')
+            return [('next', st.assume(z3.And(M.inst(L, self.uni.const(list)), M.len_(L) == 0)).set(n.targets[0].id, VObj(L)), None)]
         for s, v in self.eval(n.value, st):
             try:
                 for tgt in n.targets:
